@@ -251,6 +251,30 @@ class CallMixin(object):
             raise AnalysisError("E5.expr", "yield outside a modelled generator", node, module)
         frame = st.heap[e.id]
         v = self.eval(st, env, node.value) if node.value is not None else Const(None)
+        consumer = getattr(frame, "gen_consumer", None)
+        if consumer is not None:
+            # `for x in gen(): body` with the generator consumed directly by the loop: the loop body
+            # runs at the yield, in the loop's own frame (so what the generator raises before or
+            # after a yield surfaces at the loop, exactly as in Python)
+            target, body, loop_env, loop_node, loop_module = consumer
+            self.bind(st, loop_env, target, v, loop_node, loop_module)
+            saved_func = self.current_func
+            self.current_func = st.heap[loop_env.id].func if loop_env.id in st.heap else saved_func
+            try:
+                outs = self.exec_block(body, st, loop_env)
+            finally:
+                self.current_func = saved_func
+            nxt = [o.state for o in outs if o.status in ("normal", "continue")]
+            if any(o.status not in ("normal", "continue") for o in outs):
+                raise AnalysisError("E5.expr", "break / return in the body of a loop over a generator that is inlined", loop_node, loop_module)
+            if not nxt:
+                raise Dead()
+            cur = nxt[0]
+            for x in nxt[1:]:
+                cur, _ = self.merge_states(cur, x, None, None)
+            if cur is not st:
+                st.heap, st.pc, st.dom, st.facts, st.constraints = (cur.heap, cur.pc, cur.dom, cur.facts, cur.constraints)
+            return Const(None)
         guard = mk_and(st.pc[frame.gen_pc0 :]) if len(st.pc) > frame.gen_pc0 else TRUE
         frame.gen_items.append((guard, v))
         return Const(None)
@@ -310,11 +334,16 @@ class CallMixin(object):
         saved_func = self.current_func
         self.current_func = func
         is_gen = self.is_generator(func)
+        consumer = None
         if is_gen:
             # a generator function: the values it yields, in order, as a one-shot sequence
             env.gen_items = []
             env.gen_pc0 = len(st.pc)
             gen_ev0 = len(self.events)
+            consumer = getattr(self, "_pending_consumer", None)
+            self._pending_consumer = None
+            if consumer is not None:
+                env.gen_consumer = consumer
         try:
             outs = self.exec_block(func.node.body, st, e)
         finally:
@@ -324,11 +353,11 @@ class CallMixin(object):
             for o in outs:
                 if o.status == "return":
                     o.value = None
-            if len(outs) != 1:
+            if len(outs) != 1 and consumer is None:
                 raise AnalysisError("E5.expr", "generator function with several exits", node, module)
             # the body is run eagerly: that is the generator's behaviour only if nothing in it can
             # raise (an exception surfaces at the consuming next() and ends the generator)
-            for e_ in self.events[gen_ev0:]:
+            for e_ in self.events[gen_ev0:] if consumer is None else []:
                 if e_.kind in ("hazard", "raise", "may_raise", "none_arith"):
                     raise AnalysisError("E5.expr", "generator function %s whose body can raise is not modelled" % func.qualname, node, module)
         rets = []
@@ -1921,7 +1950,45 @@ class StmtMixin(object):
         loop = L(ast.While(test=L(ast.Constant(value=True)), body=[a1, stop, a2] + list(s.body), orelse=[]))
         return self.s_While(loop, st, env, module)
 
+    def for_over_generator(self, s, st, env, module):
+        """`for x in gen(...): body` where gen is a generator function of the package whose body can
+        raise (or simply always): the generator is inlined with the loop body run at each yield.
+        Returns None when the shape does not apply."""
+        if not isinstance(s.iter, ast.Call):
+            return None
+        for sub in s.body:
+            for n in ast.walk(sub):
+                if isinstance(n, (ast.Break, ast.Return, ast.Yield, ast.YieldFrom)):
+                    return None
+        try:
+            fn = self.eval(st, env, s.iter.func)
+        except AnalysisError:
+            return None
+        func = fn.func if isinstance(fn, (FuncVal, BoundMeth)) else None
+        if func is None or not self.is_generator(func):
+            return None
+        # only generators that can raise need this (the eager model is exact otherwise), but the
+        # inlined form is always right
+        args = [self.eval(st, env, a) for a in s.iter.args if not isinstance(a, ast.Starred)]
+        if len(args) != len(s.iter.args) or any(kw.arg is None for kw in s.iter.keywords):
+            return None
+        kwargs = dict((kw.arg, self.eval(st, env, kw.value)) for kw in s.iter.keywords)
+        self._pending_consumer = (s.target, s.body, env, s, module)
+        try:
+            if isinstance(fn, BoundMeth):
+                self.inline(st, func, None, [fn.recv] + args, kwargs, s.iter, module)
+            else:
+                self.inline(st, func, fn.env, args, kwargs, s.iter, module)
+        finally:
+            self._pending_consumer = None
+        if s.orelse:
+            return self.exec_block(s.orelse, st, env)
+        return [Outcome("normal", st)]
+
     def s_For(self, s, st, env, module):
+        r_ = self.for_over_generator(s, st, env, module)
+        if r_ is not None:
+            return r_
         it = self.eval(st, env, s.iter)
         if isinstance(it, Ref) and st.heap[it.id].kind == "calliter":
             return self.for_calliter(s, st, env, module, st.heap[it.id])
